@@ -304,6 +304,32 @@ pub fn judge_cli(rep: &mut Report, prop: &str, origin: &str, src: &str, out: &Ou
     };
     let r1 = cli::fml_run_file(&f);
     check(rep, "fml run FILE", &r1);
+    // every fourth case also with a terminal as standard output and standard error (`script`
+    // provides the pseudo-terminal; its only transformation is LF -> CR LF). Successful programs
+    // only: a failing one sends its diagnostic to the same terminal.
+    if idx % 4 == 1 && expect_ok && std::path::Path::new("/usr/bin/script").exists() {
+        if let (Some(fs), Ok(exe)) = (f.to_str(), std::env::current_exe()) {
+            if !fs.contains('\'') {
+                let inner = format!("'{}' run '{}'", exe.display(), fs);
+                let t = cli::run(cli::Spec::new(&["-q", "-e", "-c", &inner, "/dev/null"]).exe(std::path::Path::new("/usr/bin/script")));
+                rep.evaluations += 1;
+                if t.timed_out || t.spawn_error.is_some() {
+                    rep.skip("cli-watchdog");
+                } else {
+                    rep.conclusive += 1;
+                    rep.count("cli_runs_on_a_terminal", 1);
+                    let want = out.out.replace('\n', "\r\n");
+                    if !t.success() || t.stdout != want.as_bytes() {
+                        rep.violation(
+                            &format!("{}:cli-terminal", prop),
+                            format!("{}: `fml run FILE` with a terminal as stdout/stderr: expected success with {:?} (LF sent as CR LF by the terminal); observed {}\n{}", origin, clip(&want), t.describe(), clip(src)),
+                            replay.clone(),
+                        );
+                    }
+                }
+            }
+        }
+    }
     if idx % 2 == 0 {
         let r2 = cli::fml_run_stdin(src);
         check(rep, "fml run < stdin", &r2);
